@@ -182,14 +182,15 @@ Section VoteInv.
 
   Section Step.
     Variables (n : nat) (σ : sys) (G : list lrec) (A : list ack) (CL : list cand) (GR : list grant).
-    Variables (i : nid) (s : node) (ev : event) (k : N) (crashed : bool) (st : N) (s' : node).
+    Variables (i : nid) (s : node) (ev : event) (k : N) (s' : node).
     Hypothesis Hlen : length (sy_nodes σ) = n.
     Hypothesis WI : voteinv σ G A CL GR.
     Hypothesis Gs : get_node i (sy_nodes σ) = Some s.
     Hypothesis Hdel : forall m, ev = EDeliver m -> In m (sy_soup σ) /\ m_to m <> 0.
-    Hypothesis Hev : evok2 n ev.
     Hypothesis Hres : evres bm be ev.
-    Hypothesis Hrun : run_event_crash (settle s) ev k = Ret (crashed, st, s').
+    Hypothesis NS : nstep s ev k s'.
+    Hypothesis El0 : Election.inv (map n_id (sy_nodes σ)) (step_sys σ s').
+    Hypothesis I20 : inv2 n (step_sys σ s').
 
     Let σ' := step_sys σ s'.
     Let G' := G ++ rec_of s s'.
@@ -202,11 +203,11 @@ Section VoteInv.
 
     Let KI := w_k _ _ _ _ _ WI.
     Let GI := k_g _ _ _ _ _ KI.
-    Let KI' : ackinv bm be σ' G' A' := ackinv_step_rec bm be n σ G A i s ev k crashed st s' Hlen KI Gs Hdel Hev Hres Hrun.
+    Let KI' : ackinv bm be σ' G' A' := ackinv_step_abs bm be n σ G A i s ev k s' Hlen KI Gs Hdel Hres NS El0 I20.
     Let GI' : ginv bm be σ' G' := k_g _ _ _ _ _ KI'.
-    Let NI := st_NI bm be n σ G A i s ev k crashed st s' KI Gs Hdel Hev Hres Hrun.
-    Let Hi : n_id s' = i := st_id σ i s ev k crashed st s' Gs Hrun.
-    Let Gs' : get_node i (sy_nodes σ') = Some s' := st_Gs' σ i s ev k crashed st s' Gs Hrun.
+    Let NI := st_NI s ev k s' NS.
+    Let Hi : n_id s' = i := st_id σ i s ev k s' Gs NS.
+    Let Gs' : get_node i (sy_nodes σ') = Some s' := st_Gs' σ i s ev k s' Gs NS.
 
     Lemma vs_incl : incl G G'. Proof. intros r Hr. apply in_or_app. left. exact Hr. Qed.
     Lemma vs_inclA : incl A A'. Proof. intros r Hr. apply in_or_app. left. exact Hr. Qed.
@@ -258,10 +259,10 @@ Section VoteInv.
     Qed.
 
     Lemma vs_ids : n_id s' = n_id s /\ n_id s = i.
-    Proof. destruct (step_facts _ _ _ _ _ _ Hrun) as [Hid _]. destruct (get_node_in _ _ _ Gs) as [_ Gid]. auto. Qed.
+    Proof. pose proof (ns_id _ _ _ _ NS) as Hid. destruct (get_node_in _ _ _ Gs) as [_ Gid]. auto. Qed.
 
     Lemma vs_Go j : j <> i -> get_node j (sy_nodes σ') = get_node j (sy_nodes σ).
-    Proof. apply (st_Go σ i s ev k crashed st s' Gs Hrun). Qed.
+    Proof. apply (st_Go σ i s ev k s' Gs NS). Qed.
 
     Lemma vs_Gcase j x : get_node j (sy_nodes σ') = Some x -> (j = i /\ x = s') \/ (j <> i /\ get_node j (sy_nodes σ) = Some x).
     Proof.
@@ -284,7 +285,7 @@ Section VoteInv.
     Lemma vs_votes_src : n_role s' <> Follower -> forall v, In v (c_votes s') -> In (v, T', n_id s') GR' \/ has_rec G T' = true.
     Proof.
       intros Hr v Hv. destruct vs_ids as [Hid Gid].
-      destruct (step_facts _ _ _ _ _ _ Hrun) as [_ [_ [_ He]]]. destruct (He Hr) as [S1 _].
+      pose proof (ns_esum _ _ _ _ NS) as He. destruct (He Hr) as [S1 _].
       destruct (S1 v Hv) as [[R1 [R2 R3]] | [[R1 R2] | [m [R1 [R2 [R3 [R4 R5]]]]]]].
       - fold T' in R2. destruct (w_votes _ _ _ _ _ WI i s Gs R1 v R3) as [X | X].
         + left. apply in_or_app. left. rewrite Hid, R2. exact X.
@@ -313,10 +314,10 @@ Section VoteInv.
         apply in_rec_of in Hr. destruct Hr as [Er _]. inversion Er. auto.
     Qed.
 
-    Lemma voteinv_step_rec : voteinv σ' G' A' CL' GR'.
+    Lemma voteinv_step_abs : voteinv σ' G' A' CL' GR'.
     Proof.
       destruct vs_ids as [Hid Gid].
-      destruct (step_facts _ _ _ _ _ _ Hrun) as [_ [Hp [Hm He]]].
+      pose proof (ns_pext _ _ _ _ NS) as Hp. pose proof (ns_msgs _ _ _ _ NS) as Hm. pose proof (ns_esum _ _ _ _ NS) as He.
       pose proof (g_el _ _ _ _ GI') as El'.
       assert (Hsame_ids : map n_id (sy_nodes σ') = map n_id (sy_nodes σ)) by (simpl; apply put_node_ids).
       constructor.
@@ -419,11 +420,11 @@ Section VoteInv.
             destruct (Hdel md eq_refl) as [Min _].
             destruct (w_vr _ _ _ _ _ WI md _ _ Min Ebd) as [lc [Xc [Eli Elt]]].
             assert (Htm : m_term md = T').
-            { destruct (deliver_term _ _ _ _ _ _ Hrun) as [D | D]; [rewrite D in H0; contradiction | unfold T'; congruence]. }
+            { destruct (ns_term _ _ _ _ NS md eq_refl) as [D | D]; [rewrite D in H0; contradiction | unfold T'; congruence]. }
             exists lc. split; [apply in_or_app; left; rewrite Eto, <- Htm; exact Xc|].
             intros T P HA HT kk Htp. destruct (vs_new_ack _ _ _ HA) as [Old | [_ ET]]; [| lia].
             rewrite Hi in Old.
-            destruct (st_esc_node bm be n σ G A i s (EDeliver md) k crashed st s' Hlen KI Gs Hdel Hev Hres Hrun T P kk Old Htp) as [Le [K | Es]].
+            destruct (st_esc_node bm be n σ G A i s (EDeliver md) k s' Hlen KI Gs Hdel Hres NS I20 T P kk Old Htp) as [Le [K | Es]].
             -- (* the voter still holds the prefix: compare with the candidate's log *)
                destruct (k_rec _ _ _ _ _ KI' _ _ _ HA) as [Pn | [iT [lT [RT PT]]]].
                { subst P. destruct Htp as [[H1 H2] _]. simpl in H2. lia. }
@@ -481,6 +482,17 @@ Section VoteInv.
                apply Hnew. split; [| exact Et]. destruct (vs_rt Et) as [Y | [Y | [Y _]]]; congruence.
     Qed.
   End Step.
+
+  Lemma voteinv_step_rec n σ G A CL GR i s ev k crashed st s' :
+    length (sy_nodes σ) = n -> voteinv σ G A CL GR -> get_node i (sy_nodes σ) = Some s ->
+    (forall m, ev = EDeliver m -> In m (sy_soup σ) /\ m_to m <> 0) -> evok2 n ev -> evres bm be ev ->
+    run_event_crash (settle s) ev k = Ret (crashed, st, s') ->
+    voteinv (step_sys σ s') (G ++ rec_of s s') (A ++ acks_of s' ++ rec_acks (rec_of s s')) (CL ++ cl_of s s') (GR ++ gr_of G s s').
+  Proof.
+    intros Hlen WI Gs Hdel Hev Hres Hrun.
+    destruct (abs_of_run bm be n σ G i s ev k crashed st s' Hlen (k_g _ _ _ _ _ (w_k _ _ _ _ _ WI)) Gs Hdel Hev Hres Hrun) as [NS [El0 I20]].
+    apply (voteinv_step_abs n σ G A CL GR i s ev k s' Hlen WI Gs Hdel Hres NS El0 I20).
+  Qed.
 
   Lemma voteinv_step n σ G A CL GR e σ' :
     length (sy_nodes σ) = n -> voteinv σ G A CL GR -> lstep n bm be σ e σ' ->
